@@ -1,2 +1,11 @@
 #!/bin/sh
-exit 0
+# Offline build of the framework from files on disk: Go harness (against /repo) and the Lake project.
+set -e
+cd "$(dirname "$0")"
+mkdir -p build/bin evidence replays
+unset GOTOOLCHAIN GOSUMDB || true
+[ -f harness/go.sum ] || cp /repo/go.sum harness/go.sum
+(cd harness && GOFLAGS=-mod=mod GOPROXY=off go build -tags verif -o ../build/bin/elkh ./cmd/elkh)
+python3 -c "import vlib; vlib.gen_registry()"
+(cd lean && lake build)
+echo setup-ok
